@@ -10,7 +10,7 @@ import os
 import re
 import warnings
 from _collections_abc import Iterable, Mapping, MutableMapping, MutableSequence
-from copy import copy
+from copy import copy, deepcopy
 from pathlib import Path
 from typing import (
     Any,
@@ -552,7 +552,9 @@ class SDict(dict[K, V]):
                     value = _insert_expression(value=target_dict[key], s_dict=target_dict)
                     value_in_target_dict_contains_circular_reference = _value_contains_circular_reference(key, value)
                 if overwrite or key not in target_dict or value_in_target_dict_contains_circular_reference:
-                    target_dict[key] = dict_to_merge[key]  # Update
+                    # adopt a copy: nested containers must not be shared with dict_to_merge,
+                    # otherwise later changes to self (e.g. _clean()) would modify the merged-in dict
+                    target_dict[key] = deepcopy(dict_to_merge[key])  # Update
 
         return
 
